@@ -163,10 +163,12 @@ def _as_array_or_scalar(exprs: Sequence[ScalarExpression],
         if isinstance(expr, SCALAR_CLASSES):
             result.append(expr)
         elif (isinstance(expr, p.Variable)
+              and expr.name in bindings
               and bindings[expr.name].shape == ()):
             result.append(bindings[expr.name])
         elif (isinstance(expr, p.Subscript)
               and isinstance(expr.aggregate, p.Variable)
+              and expr.aggregate.name in binding_to_subscript
               and (binding_to_subscript[expr.aggregate.name]
                    == expr)):
             result.append(bindings[expr.aggregate.name])
@@ -188,6 +190,10 @@ def _is_idx_lambda_broadcast_op(expr: IndexLambda) -> bool:
     elif isinstance(expr.expr, p.Variable):
         input_name = expr.expr.name
     else:
+        return False
+
+    if input_name not in expr.bindings:
+        # e.g. an index variable
         return False
 
     from_shape = expr.bindings[input_name].shape
